@@ -459,7 +459,7 @@ func c06(p *core.Program, r *core.Report) {
 				if !top && len(un) == 0 {
 					return true, fmt.Sprintf("switch default: the layouts that can reach it are %v, all handled by the cases", namesOf(ef.Of(v).Sorted(), ln))
 				}
-				return false, ""
+				break // not a switch default (or not exhaustive): the other discharges may still apply
 			}
 			// int (stride): constants at call sites
 			if prm, isP := v.(*ssa.Parameter); isP {
@@ -486,6 +486,55 @@ func c06(p *core.Program, r *core.Report) {
 				}
 			}
 			break
+		}
+		// (a') table-miss assertion: `x, ok := table[v]; if !ok { panic }` on a package-level map literal that
+		// nothing writes - discharged when every value of v that can reach the test is a key of the table
+		for d := blk; d != nil && d.Idom() != nil; d = d.Idom() {
+			id := d.Idom()
+			ifi := eng.BlockIf(id)
+			if ifi == nil || len(id.Succs) != 2 || !(id.Succs[1] == blk || id.Succs[1].Dominates(blk)) {
+				continue
+			}
+			ex, isEx := ifi.Cond.(*ssa.Extract)
+			if !isEx || ex.Index != 1 {
+				break
+			}
+			lk, isLk := ex.Tuple.(*ssa.Lookup)
+			if !isLk || !lk.CommaOk {
+				break
+			}
+			tkeys, isTbl := eng.TableKeys(lk.X)
+			if !isTbl {
+				break
+			}
+			v := lk.Index
+			var vals []int64
+			switch {
+			case isLayoutT(v.Type()):
+				un, top := ef.Unmatched(v, id)
+				if top {
+					return false, ""
+				}
+				vals = un
+			default:
+				prm, isP := v.(*ssa.Parameter)
+				if !isP {
+					return false, ""
+				}
+				set, ok := argConsts(p, fn, s.Instr, prm, 0)
+				if !ok {
+					return false, ""
+				}
+				for k := range set {
+					vals = append(vals, k)
+				}
+			}
+			for _, k := range vals {
+				if !tkeys[fmt.Sprint(k)] {
+					return false, ""
+				}
+			}
+			return true, fmt.Sprintf("table miss: the values that can reach the look-up are %v, all keys of the table", vals)
 		}
 		// (b) the layout-stack assertions
 		switch fn.Name() {
